@@ -322,6 +322,13 @@ func (p *Prog) StructField(short, typ, name string) *types.Var {
 		return nil
 	}
 	canonOwner := short + "." + typ
+	if curAliases != nil {
+		if mv, ok := curAliases.movedRev[canonOwner+"."+name]; ok {
+			// regrouped into a nested struct: look the field up there
+			t := mv[0]
+			return p.StructField(t[:strings.LastIndex(t, ".")], t[strings.LastIndex(t, ".")+1:], mv[1])
+		}
+	}
 	if a := actualTypeName(canonOwner); a != canonOwner {
 		typ = a[strings.LastIndex(a, ".")+1:]
 	}
